@@ -632,3 +632,42 @@ Proof.
   intros n effects Hn Hm rf havoc.
   small_nat n Hn; cbn in Hm; injection Hm as <-; (split; [intros i Hi; small_nat i Hi; reflexivity|reflexivity]).
 Qed.
+
+(* ------------------------------------------------------------------ *)
+(* command line -> parameter registers, end to end                     *)
+(* ------------------------------------------------------------------ *)
+(* what the calling convention promises at the entry of asm_main(heap, a1, .., an) (trusted, not proved) *)
+Definition entry_regs (argreg : nat -> Z) (heap : Z) (args : list Z) (rf : regfile) : Prop :=
+  rf (argreg O) = heap /\ forall i, (i < List.length args)%nat -> rf (argreg (S i)) = nth i args 0.
+
+Lemma x86_arguments_end_to_end : forall n vs asm_main prog effects heap (rf : regfile) havoc,
+  (n <= 5)%nat -> List.length vs = n -> Forall in_i64 vs ->
+  nth_error X86RT.setup_effects n = Some effects ->
+  (forall args, In args (d_calls (driver n asm_main (prog :: map decimal vs))) -> entry_regs x86_arg heap args rf) ->
+  let rf' := exec_effects effects havoc 0 rf in
+  (forall i, (i < n)%nat -> rf' (x86_param_reg i) = nth i vs 0) /\ rf' X86C.HEAP = heap.
+Proof.
+  intros n vs asm_main prog effects heap rf havoc Hn Hlen Hvs Heff Hentry.
+  rewrite (arguments_reach_main n asm_main prog vs Hlen Hvs) in Hentry.
+  destruct (Hentry vs (or_introl eq_refl)) as (Hheap & Hargs).
+  destruct (setup_x86_ok n effects Hn Heff rf havoc) as (Hp & Hh).
+  split.
+  - intros i Hi. rewrite (Hp i Hi). apply Hargs. lia.
+  - rewrite Hh. exact Hheap.
+Qed.
+
+Lemma a64_arguments_end_to_end : forall n vs asm_main prog effects heap (rf : regfile) havoc,
+  (n <= 7)%nat -> List.length vs = n -> Forall in_i64 vs ->
+  nth_error A64RT.setup_effects n = Some effects ->
+  (forall args, In args (d_calls (driver n asm_main (prog :: map decimal vs))) -> entry_regs Z.of_nat heap args rf) ->
+  let rf' := exec_effects effects havoc 0 rf in
+  (forall i, (i < n)%nat -> rf' (a64_param_reg i) = nth i vs 0) /\ rf' A64C.HEAP = heap.
+Proof.
+  intros n vs asm_main prog effects heap rf havoc Hn Hlen Hvs Heff Hentry.
+  rewrite (arguments_reach_main n asm_main prog vs Hlen Hvs) in Hentry.
+  destruct (Hentry vs (or_introl eq_refl)) as (Hheap & Hargs).
+  destruct (setup_a64_ok n effects Hn Heff rf havoc) as (Hp & Hh).
+  split.
+  - intros i Hi. rewrite (Hp i Hi). apply Hargs. lia.
+  - rewrite Hh. exact Hheap.
+Qed.
